@@ -5,6 +5,7 @@ CONSTANTS NK = 3
   KGen <- G3_222
   MaxN = 1
   OtherKinds <- OthersOne
+  RawModes <- RawNone
   D = 0
 INIT Init
 NEXT Next
